@@ -266,3 +266,59 @@ def c1(proj, rep):
             rep.ok('C1', q, f'constraint list `{cname}` only grows; kinds {kinds}', m, first)
     rep.count('C1.builders', n)
     return n
+
+
+# ------------------------------------------------------------------------------------------------ C2
+RULE_C2 = ('C2: in CHABoundaryBagging.solve every boundary value that enters the history (and the final weights read from the LP variable) comes from a '
+           '`self._cvxpy_solve()` executed AFTER the last re-ordering / replacement of the product states: values returned by helpers that re-order '
+           'ketA / ketB after their own solve are stale (the LP variable keeps the pre-sort order, so the reported weights belong to other states).')
+
+
+def c2(proj, rep):
+    rep.rule('C2', RULE_C2)
+    ci = proj.cls('numqi.entangle.cha.CHABoundaryBagging')
+    m = ci.module
+    rep.touch(m)
+    f = ci.methods.get('solve')
+    if f is None:
+        rep.undecided('C2', ci.qual, 'solve() not found', m, ci.node, text='solve')
+        return 0
+    # helper methods that assign self.ketA / self.ketB
+    reorder = set()
+    for name, fi in ci.methods.items():
+        if name in ('__init__', 'solve'):
+            continue
+        for s in ast.walk(fi.node):
+            if isinstance(s, ast.Assign) and any(isinstance(t, ast.Attribute) and isinstance(t.value, ast.Name) and t.value.id == 'self' and t.attr in ('ketA', 'ketB')
+                                                 for t in s.targets):
+                reorder.add(name)
+    n = 0
+    for s in ast.walk(f.node):
+        vals = []
+        if isinstance(s, ast.Assign) and isinstance(s.targets[0], ast.Name) and s.targets[0].id == 'beta_history' and isinstance(s.value, ast.List):
+            vals = list(s.value.elts)
+        elif isinstance(s, ast.Call) and isinstance(s.func, ast.Attribute) and s.func.attr == 'append' and isinstance(s.func.value, ast.Name) \
+                and s.func.value.id == 'beta_history' and s.args:
+            vals = [s.args[0]]
+        for v in vals:
+            n += 1
+            t = ast.unparse(v).replace(' ', '')
+            src = v
+            if isinstance(v, ast.Name):
+                # resolve one local definition
+                d = [x.value for x in ast.walk(f.node) if isinstance(x, ast.Assign) and isinstance(x.targets[0], ast.Name) and x.targets[0].id == v.id]
+                if len(d) >= 1:
+                    src = d[-1]
+            called = [c.func.attr for c in ast.walk(src) if isinstance(c, ast.Call) and isinstance(c.func, ast.Attribute) and isinstance(c.func.value, ast.Name)
+                      and c.func.value.id == 'self']
+            if '_cvxpy_solve' in called and not (set(called) & reorder):
+                rep.ok('C2', f'{ci.qual}.solve', f'history entry `{t[:40]}` comes from self._cvxpy_solve()', m, v)
+            elif set(called) & reorder:
+                h = sorted(set(called) & reorder)[0]
+                rep.violation('C2', f'{ci.qual}.solve', f'history entry `{t[:50]}` is the return value of `{h}`, which re-orders ketA/ketB after its own solve: the LP '
+                              f'variable (weights) is in the pre-sort order, so with maxiter=0 the returned weights belong to different product states', m, v)
+            else:
+                rep.undecided('C2', f'{ci.qual}.solve', f'source of history entry `{t[:40]}` not recognised', m, v)
+                n -= 1
+    rep.count('C2.history_entries', n)
+    return n
